@@ -566,12 +566,6 @@ func (v *VM) renderPage(r *Resp) {
 		r.OutKnown = false
 		return
 	}
-	if v.hasSink() && v.OutputSize > 0 {
-		return // pagination: C02's business
-	}
-	if v.Nav.Idx > 0 {
-		return // lateral index on a page: rendering outcome depends on the page count
-	}
 	tpl := node.Tpl
 	if v.Lang != "" {
 		if t, ok := node.TplLang[v.Lang]; ok {
@@ -580,9 +574,16 @@ func (v *VM) renderPage(r *Resp) {
 	}
 	out, ok := expand(tpl, v.mapped)
 	if !ok {
+		// the template needs a symbol that is not mapped on this page: rendering fails, paginated or not
 		r.OutKnown = true
 		r.FlushErr = true
 		return
+	}
+	if v.hasSink() && v.OutputSize > 0 {
+		return // pagination: C02's business
+	}
+	if v.Nav.Idx > 0 {
+		return // lateral index on a page: rendering outcome depends on the page count
 	}
 	if v.errPfx != "" {
 		if out == "" {
